@@ -7,6 +7,7 @@ pub mod c02;
 pub mod c06;
 pub mod c12;
 pub mod c18;
+pub mod c19;
 
 pub fn run(prop: &str, args: &Args) -> i32 {
     match prop {
@@ -15,6 +16,7 @@ pub fn run(prop: &str, args: &Args) -> i32 {
         "C06" => c06::run(args),
         "C12" => c12::run(args),
         "C18" => c18::run(args),
+        "C19" => c19::run(args),
         _ => {
             eprintln!("unknown property {prop}");
             2
